@@ -289,6 +289,11 @@ def main_check(modname, tier, replay=None, seed=None, cases=None, selftest=False
             harness_errors.append(f"block {o.index}: {o.detail}")
         else:
             # crash or hang inside a block: locate the case by isolated re-runs
+            located_so_far = sum(1 for rv in raw_viol if rv["violation"]["class"] in ("crash", "hang"))
+            if located_so_far >= 3:
+                # the check already fails with three attributed crashes / hangs: do not spend the caps on every further block
+                stats["blocks_" + o.status + "_not_examined"] = stats.get("blocks_" + o.status + "_not_examined", 0) + 1
+                continue
             log(f"[runner] block {o.index} {o.status}: {o.detail}; locating the case")
             start = o.index * cfg["block"]
             end = min(cfg["cases"], start + cfg["block"])
